@@ -35,9 +35,9 @@ function h_set(t,k,v) t[k]=v end
 function h_get(t,k) return t[k] end
 function h_len(t) return #t end
 function h_next1(t,k) return next(t,k) end
-function h_next(t) local k,v=next(t) while k~=nil do emit(k,v) k,v=next(t,k) end end
-function h_pairs(t) for k,v in pairs(t) do emit(k,v) end end
-function h_ipairs(t) for i,v in ipairs(t) do emit(i,v) end end
+function h_next(t) local n=0 local k,v=next(t) while k~=nil do n=n+1 if n>100000 then error("runaway traversal") end emit(k,v) k,v=next(t,k) end end
+function h_pairs(t) local n=0 for k,v in pairs(t) do n=n+1 if n>100000 then error("runaway traversal") end emit(k,v) end end
+function h_ipairs(t) local n=0 for i,v in ipairs(t) do n=n+1 if n>100000 then error("runaway traversal") end emit(i,v) end end
 function h_new() return {} end
 `
 
